@@ -1280,7 +1280,7 @@ Section Specs.
       - apply allsub_node. split; [| constructor]. split.
         + destruct O2 as (_ & _ & Sc). apply allsub_node in Sc. apply Sc.
         + destruct k2; [contradiction | exact Logic.I | exact Logic.I].
-      - intros h cs Q _. inversion Q; subst. split; [exact K1 |]. destruct k2; [contradiction | |]; eauto.
+      - intros h cs Q _. inversion Q; subst. split; [exact K1 |]. destruct k2; [contradiction | exists v2, KI; auto | exists v2, KF; auto].
       - intros [Q | Q]; congruence.
       - intros _. reflexivity.
       - exists K, U. split; [exact I1 |]. split; [exact S1 |]. eapply teq_bound; [reflexivity | exact Bd].
@@ -1362,4 +1362,65 @@ Section Specs.
       destruct Oa as (Pa & _). destruct a as [| | h cs]; try discriminate Pa. apply pfrag_node in Pa. destruct Pa as (n & Q & _).
       destruct h; try discriminate Ka; discriminate Q.
   Qed.
+
+  Lemma teq_goals t gs gs' : (forall x y, In (outlives_goal x y) gs -> In (outlives_goal x y) gs') ->
+    forall a b, teq t gs a b -> teq t gs' a b.
+  Proof.
+    intros I. fix IH 3. intros a b H. destruct H as [a | a b H | a b c H1 H2 | h cs cs' H | h cs v x Hv Hb | h cs h' cs' v w Hv Hw Hc | a b Ka Kb I1 I2].
+    - apply teq_refl.
+    - apply teq_sym. apply IH. exact H.
+    - eapply teq_trans; apply IH; eassumption.
+    - apply teq_node. revert cs cs' H. fix IH2 3. intros cs cs' H. destruct H as [| x y r r' Hxy Hr]; constructor.
+      + apply IH. exact Hxy.
+      + apply IH2. exact Hr.
+    - eapply teq_bound; eassumption.
+    - eapply teq_class; eassumption.
+    - apply teq_outlives; auto.
+  Qed.
+
+  (** [InferenceTable::relate], invariant relation, on the fragment. *)
+  Lemma relate_sound_lemma fuel a b t gs t' K U :
+    inv K U t -> okt K t a -> okt K t b ->
+    relate adt_var fn_var fuel Invariant a b t = (Done gs, t') ->
+    exists K' U', inv K' U' t' /\ step K U t K' U' t' /\ teq t' gs a b.
+  Proof.
+    intros I Oa Ob H. unfold relate in H.
+    destruct (rel adt_var fn_var fuel Invariant a b t) as [[r t1] g1] eqn:E.
+    destruct r as [[] | | | s |]; inversion H; subst. clear H.
+    destruct (rel_spec fuel a b K U t tt _ g1 I Oa Ob E) as (K1 & U1 & I1 & S1 & T1).
+    exists K1, U1. split; [exact I1 |]. split; [exact S1 |]. unfold commit.
+    eapply teq_goals; [| exact T1]. intros x y Hin. unfold retain_goals. apply filter_In. split; [exact Hin | reflexivity].
+  Qed.
+
+  Lemma inv_empty K U : inv K U empty_table.
+  Proof.
+    assert (G : forall v, get empty_table v = None) by (intros v; unfold get, empty_table; cbn [unify]; destruct (N.to_nat v); reflexivity).
+    constructor; intros; match goal with H : get empty_table _ = Some _ |- _ => rewrite G in H; discriminate H end.
+  Qed.
 End Specs.
+
+(** Non-vacuity: [?0] (universe 0) and [?1] (universe 1), [!0_0] a placeholder of the root
+    universe: relating [(?0, &'!1_0 ?1)] with [(Adt1<?1>, &'!1_0 !0_0)] binds both unknowns
+    (promoting [?1]), and the hypotheses of [relate_sound] hold for the table. *)
+Example relate_sound_nonvacuous :
+  let ar := fun _ : N => 1%nat in
+  let t := snd (new_variable 1 (snd (new_variable 0 (snd (new_universe empty_table))))) in
+  let K := upd (upd (fun _ => KG) 0 KG) 1 KG in
+  let U := upd (upd (fun _ => 0) 0 0) 1 1 in
+  let lt := Node (HLPlaceholder 1 0) [] in
+  let a := Node (HTuple 2) [ty_var 0 General; Node (HRef Not) [lt; ty_var 1 General]] in
+  let b := Node (HTuple 2) [Node (HAdt 1) [ty_var 1 General]; Node (HRef Not) [lt; Node (HPlaceholder 0 0) []]] in
+  inv ar K U t /\ okt ar K t a /\ okt ar K t b
+  /\ exists t', relate (fun _ => []) (fun _ => []) 20 Invariant a b t = (Done [], t')
+                /\ get t' 1 = Some (mkcell 1 (Bound (Node (HPlaceholder 0 0) [])))
+                /\ get t' 0 = Some (mkcell 0 (Bound (Node (HAdt 1) [ty_var 1 General]))).
+Proof.
+  cbv zeta. split; [| split; [| split]].
+  - pose proof (inv_new (fun _ => 1%nat) (fun _ => KG) (fun _ => 0) (snd (new_universe empty_table)) 0 KG) as H0.
+    assert (I0 : inv (fun _ => 1%nat) (fun _ => KG) (fun _ => 0) (snd (new_universe empty_table))).
+    { pose proof (inv_empty (fun _ => 1%nat) (fun _ => KG) (fun _ => 0)) as E. destruct E; constructor; assumption. }
+    destruct (H0 I0) as [I1 _]. pose proof (inv_new (fun _ => 1%nat) _ _ _ 1 KG I1) as [I2 _]. exact I2.
+  - split; [reflexivity |]. split; cbn; repeat split; try lia.
+  - split; [reflexivity |]. split; cbn; repeat split; try lia.
+  - eexists. split; [vm_compute; reflexivity |]. split; reflexivity.
+Qed.
